@@ -466,9 +466,16 @@ func (d *vdialer) DialContext(ctx context.Context) (*BaseClient, error) {
 	f := d.b.fault(func(f *e4Fault) bool { return f.Kind == "dialErr" && f.Conn == k })
 	d.b.mu.Unlock()
 	if f != nil {
-		d.b.log.add(k, "DIAL-ERR", nil, "injected")
-		finish(errVDial)
-		return nil, errVDial
+		err := errVDial
+		switch f.Code {
+		case 1:
+			err = fmt.Errorf("verif: injected dial failure: attempt timed out: %w", context.DeadlineExceeded)
+		case 2:
+			err = fmt.Errorf("verif: injected dial failure: attempt abandoned: %w", context.Canceled)
+		}
+		d.b.log.add(k, "DIAL-ERR", nil, "injected: "+err.Error())
+		finish(err)
+		return nil, err
 	}
 	c := &vbConn{id: k, b: d.b, typeCount: map[int]int{}, ackCount: map[int]int{}}
 	c.mc = newMemConn(k, d.b.log, c)
